@@ -56,7 +56,7 @@ Verdict(r) ==
                    ELSE IF sz < r.lim - 2 THEN "SmallMessageRefusedForSize" ELSE "")
            ELSE IF r.lim > 0 /\ r.res = "end" /\ ref.st = "end" /\ sz > r.lim + 2 THEN "MessageOverTheLimitAccepted"
            ELSE DecVerdict(r.s, r.res, r.msg, -1, r.q = 1)
-  IN IF r.res = "pre" THEN "CommandNotRecognisedWhenSplitAcrossReads"
+  IN IF r.res = "pre" THEN "CommandNotRecognisedWhenSplitAcrossReads"        \* (or, with cap = 0, when one call of the daemon was cut short)
      ELSE IF v # "" THEN v
      ELSE IF r.orig # <<-1>> /\ r.msg # Lines(r.orig) THEN "RoundTripChangedMessage"     \* decode(encode(m)) = m, line by line
      ELSE IF ref.st = "end" /\ r.nlf # -1 /\ r.nlf # NumLF(SubSeq(r.s, ref.used + 1, Len(r.s))) THEN "BytesAfterTerminatorNotCommands"
